@@ -150,6 +150,11 @@ def interpret(desc, v, tok, forced=frozenset()):
                 return ('EXC', 'BatchBoom', (tag, AnyBatchWith(t, tag)))
             return (tag, v)
         if 'fail' in acts:
+            cls = next((arg for a, arg in plan_for(tok, tag) if a == 'fail'), None)
+            if cls:
+                from .targets import handler_exc_class
+
+                return ('EXC', handler_exc_class(cls).__name__, (tag, t))
             return ('EXC', 'Boom', (tag, t))
         return (tag, v)
     if k == 'Seq':
